@@ -25,7 +25,8 @@ def run(ctx):
     for fn in (MSEND, MM + "send", MM + "disconnect"):
         r1.check(F.body(fn) is not None and F.body(fn + "::{closure#0}") is None or not (F.fns.get(fn) or {}).get("async", False), "sync:" + fn.split("::")[-1] + "@" + fn.split("::")[-2], "%s is a plain (non-async) function" % fn, "%s is async: the client path could be suspended on a mirror" % fn)
         r1.check(not (F.fns.get(fn) or {}).get("async", True), "not-async:" + fn.split("::")[-2] + "::" + fn.split("::")[-1], "%s is declared without `async`" % fn, "%s is declared async" % fn)
-    reach = {n for n in F.reachable_fns([MSEND]) if n in F.bodies}
+    # everything a server connection's owner runs on behalf of the mirrors: the hand-off at every send, and the farewell when the connection is dropped
+    reach = {n for n in F.reachable_fns([MSEND, MM + "send", MM + "disconnect"]) if n in F.bodies}
     chan = set()
     blocking = []
     for n in reach:
@@ -33,11 +34,14 @@ def run(ctx):
         for c in b.calls():
             if "tokio::sync::mpsc" in c.name:
                 chan.add(c.name.split("::")[-1])
-            if re.search(r"blocking_send|block_on|::send$|lock$|::write$|::read$|sleep|park", c.name) and "tokio::sync::mpsc" in c.name or re.search(r"block_on|thread::sleep|blocking_", c.name):
+            if re.search(r"blocking_send|block_on|::send$|lock$|::write$|::read$|sleep|park", c.name) and "tokio::sync::mpsc" in c.name or re.search(r"block_on|thread::(functions::)?(sleep|sleep_until|park|park_timeout|yield_now)|blocking_|spin_loop", c.name):
                 blocking.append(c.where())
+            # waiting against a clock (a grace period for the mirrors to catch up) is waiting on the mirror, however short
+            if re.search(r"time::(Instant|SystemTime)(<.*>)?::(now|elapsed)$", c.name):
+                blocking.append("clock-bounded wait: " + c.where())
         if any(blk["term"]["k"] == "yield" for blk in b.blocks):
             blocking.append("yield in " + n)
-    r1.check(chan <= {"try_send", "capacity", "is_closed"} and "try_send" in chan, "channel-ops", "mirror hand-off uses only %s" % sorted(chan), "mirror hand-off uses channel operations %s (only try_send/capacity/is_closed never block)" % sorted(chan))
+    r1.check(chan <= {"try_send", "capacity", "is_closed", "max_capacity", "same_channel", "strong_count", "weak_count"} and "try_send" in chan, "channel-ops", "mirror hand-off uses only %s" % sorted(chan), "mirror hand-off uses channel operations %s (only try_send/capacity/is_closed never block)" % sorted(chan))
     r1.check(not blocking, "no-blocking", "nothing reachable from mirror_send can block or suspend", "blocking/suspending operations reachable from mirror_send: %s" % blocking[:3])
     # bounded queue
     mk_ = F.body(MM + "from_addresses")
